@@ -21,7 +21,7 @@ LEVEL_TEXT = ('every schedule of the visible operations of the concurrent proces
               'put of every history the old pairs must be byte-identical and exactly one new complete pair must hold the trashed entry')
 LEVEL_NOTE = ('visible = operations with an entry path in the shared zone (trash dir and its not-yet-existing ancestors); the independence of all other operations is checked by an audit over '
               'the recorded traces, a hit is a harness error; state hashing uses the observation history of each process (sound, finer than necessary)')
-RULE = ('(a) histories of length <= 4 (thorough 6) over {put file a from d1, put dir a from d2, put symlink a from d3} from 5 initial trash states (empty, orphan file payload, orphan dir payload, '
+RULE = ('(a) histories of length <= 4 (thorough 6) over {put file a from d1, put dir a from d2, put symlink a from d3} from 6 initial trash states (empty, orphan file payload, orphan dir payload, files/ relocated behind a symbolic link, '
         'orphan info, both at a_1); names of 244-255 bytes trashed three times (truncation branch); 100 pre-existing entries + 3 puts x all random answer sequences of length 4 over {existing pair, orphan payload, orphan info, fresh}; (b) concurrent harnesses: '
         '2 puts warm, 2 puts cold (first use, the makedirs race), file+dir mix warm, 3 puts warm (thorough: unbounded; quick: preemption bound 2), 2 puts into .Trash-uid cold; distinct = terminal outcome classes per harness')
 B = '/home/u'
@@ -163,7 +163,8 @@ def replay_case(case):
 
 # =============================================================================================== (a) E2
 SEQ_ACTIONS = ['file', 'tree', 'ldang']
-INITS = ['empty', 'orphan-file', 'orphan-dir', 'orphan-info', 'both-at-a_1']
+INITS = ['empty', 'orphan-file', 'orphan-dir', 'orphan-info', 'both-at-a_1', 'files-symlinked']
+STORE = '/home/u/.local/share/store'
 
 
 def seq_world(init):
@@ -180,7 +181,25 @@ def seq_world(init):
     elif init == 'both-at-a_1':
         W.file(TD + '/files/a_1', 'orphan payload at a_1\n')
         W.file(TD + '/info/a_2.trashinfo', '[Trash Info]\nPath=/elsewhere/a\nDeletionDate=2018-01-01T00:00:00\n')
+    elif init == 'files-symlinked':
+        # the user relocated files/ and left a symbolic link behind; one complete pair is already there
+        del W.nodes[TD + '/files']
+        W.order.remove(TD + '/files')
+        W.dir(STORE, mode=0o700).link(TD + '/files', '../store')
+        W.file(STORE + '/a', 'older payload, lives in the relocated files/\n')
+        W.file(TD + '/info/a.trashinfo', '[Trash Info]\nPath=/elsewhere/a\nDeletionDate=2018-01-01T00:00:00\n')
     return W
+
+
+def _through_link(snap):
+    """view of a snapshot in which a symlinked files/ directory is replaced by what it points to (only while it IS a link)"""
+    if snap.get(TD + '/files', ('x',))[0] != 'l':
+        return snap
+    out = {p: v for p, v in snap.items() if p != TD + '/files' and p != STORE and not p.startswith(STORE + '/')}
+    for p, v in snap.items():
+        if p == STORE or p.startswith(STORE + '/'):
+            out[TD + '/files' + p[len(STORE):]] = v
+    return out
 
 
 def put_step(sb, kind_i, k, n, randints=None, name='a'):
@@ -193,10 +212,10 @@ def put_step(sb, kind_i, k, n, randints=None, name='a'):
     for i, nd in enumerate(nodes):
         nd[3] = (world.T0 + 500 + 10 * n + i) * 10 ** 9
     world.build(sb.root, nodes)
-    before = sb.snapshot()
+    before = _through_link(sb.snapshot())
     plan = {'randints': randints} if randints is not None else None
     r = sb.run(['trash-put', name], cwd=d, env={'HOME': B}, now='2024-05-06T07:%02d:%02d' % (n // 60, n % 60), plan=plan)
-    after = sb.snapshot()
+    after = _through_link(sb.snapshot())
     cl = scen.classify_put(before, after, d + '/' + name)
     detail = {'exit': r.exit, 'err': r.err[-300:], 'state': cl['state'], 'why': cl['why'], 'new': [cl['new_infos'], cl['new_payloads']]}
     if r.exit != 0 or cl['state'] != 'TRASHED':
@@ -235,6 +254,11 @@ def seq_case(c):
                 else:
                     W.dir(TD + '/files/' + t).file(TD + '/files/' + t + '/keep', 'orphan dir at the truncated name\n')
                 world.build(sb.root, [W.nodes[p] for p in W.order if p.startswith(TD + '/files/')])
+        if c.get('pre_orphan'):
+            W = world.World()
+            W.nodes, W.order = {}, []
+            W.file(TD + '/files/' + c['pre_orphan'], 'orphan payload with the very name\n')
+            world.build(sb.root, [W.nodes[p] for p in W.order if p.startswith(TD + '/files/')])
         rnd = None
         if c.get('answers') is not None:
             m = {'pair': 1111, 'payload': 2222, 'info': 3333}
@@ -271,6 +295,10 @@ def seq_cases(tier):
             # an entry named r, then one named r.trashinfo (its info is r.trashinfo.trashinfo): neither may disturb the other
             out.append({'init': 'empty', 'hist': [k1, k2], 'names': ['r', 'r.trashinfo']})
             out.append({'init': 'empty', 'hist': [k1, k2], 'names': ['r.trashinfo', 'r']})
+            # names made of dots only (no "extension" to split off), twice, with and without an orphan payload of that name
+            for nm in ('...', '..a', '.a.'):
+                out.append({'init': 'empty', 'hist': [k1, k2], 'names': [nm, nm]})
+                out.append({'init': 'empty', 'hist': [k1, k2], 'names': [nm, nm], 'pre_orphan': nm})
     for ans in itertools.product(['pair', 'payload', 'info', 'fresh'], repeat=4):
         out.append({'init': 'empty', 'hist': [0], 'hundred': True, 'answers': list(ans)})
         out.append({'init': 'empty', 'hist': [1], 'hundred': True, 'answers': list(ans)})
